@@ -2718,3 +2718,20 @@ def rule_shape_all_forms(ctx):        # pending finding: NOT registered (reports
     """The stronger obligation: EVERY spelling the compiler accepts works on the shadow object -> rows (directive, use, spelling, reason) that fail."""
     rows, infos = shape_table(ctx)
     return [(name, kind, use, label, reason) for name, kind, use, label, outcome, reason, explicit_with in rows if outcome == 'fail']
+
+
+def rule_allforms(ctx, floor=150):
+    """C38-ALLFORMS: rule_shape_all_forms as a registered rule - every spelling of a directive that the compiler accepts (bare decorator, call, with
+    statement, sub-option keywords) works on the shadow object of Shadow.py.  The rows that fail on the unmodified tree are the known finding K21."""
+    from ..core import Rule
+    r = Rule('C38-ALLFORMS', 'every spelling of a compiler directive that the compiler accepts (bare decorator, call, with statement) is supported by the object '
+                             'Cython/Shadow.py provides under that name when the module runs uncompiled', floor)
+    rows, infos = shape_table(ctx)
+    for i in infos:
+        r.info(i)
+    for name, kind, use, label, outcome, reason, explicit_with in rows:
+        key = 'Shadow:%s:%s:%s' % (name, use, ''.join(str(label).split()))
+        r.inst(key, sample='%s (%s) as %s %s: %s' % (name, kind, use, label, outcome))
+        if outcome == 'fail':
+            r.violate(key, 'Cython/Shadow.py', 0, 'cython.%s used as %s (%s spelling) is accepted by the compiler but not supported uncompiled: %s' % (name, use, label, reason))
+    return r
